@@ -1,3 +1,4 @@
 import PqVerif.Driver.Comb
 import PqVerif.Driver.Expr
 import PqVerif.Driver.Engine
+import PqVerif.Driver.Program
